@@ -153,6 +153,24 @@ def run_stored(ck, F):
                 ck.bad("C09.stored-operands-checked", key, "%s stores `%s` into the result without any validation depending on it (a check was dropped or now tests something else)" % (fid, role), "%s:%s" % (fn["file"], fn["line"]))
 
 
+def run_anchors(ck, F):
+    tab = json.load(open(os.path.join(os.path.dirname(__file__), "tables", "c09_validation_anchors.json")))
+    ck.rule("C09.validation-not-bypassed", "in each checked constructor the number of rejecting branches (and validating loops) that EVERY successful path must pass does not "
+            "drop below the reference: a validation that becomes conditional (a fast path, an early return, a skipped scan) is no longer must-pass", floor=len(tab))
+    for fid, ref in sorted(tab.items()):
+        fn = F.resolve(fid)
+        if fn is None:
+            ck.missing_anchor(fid, "C09.validation-not-bypassed")
+            continue
+        d, l = flow.validation_anchors(Body(fn))
+        rd, rl = ref["must_pass_rejecting_branches"], ref["must_pass_validating_loops"]
+        if d + l < rd + rl or d < min(rd, 1):
+            ck.bad("C09.validation-not-bypassed", fid, "%s: %d must-pass rejecting branch(es) and %d must-pass validating loop(s), the reference tree has %d and %d: some validation can now "
+                   "be bypassed on a path that still returns successfully" % (fid, d, l, rd, rl), "%s:%s" % (fn["file"], fn["line"]))
+        else:
+            ck.ok("C09.validation-not-bypassed", fid, "%d + %d must-pass validation anchors (reference %d + %d)" % (d, l, rd, rl))
+
+
 def run_overflow(ck, F):
     ck.rule("C09.len-offset-overflow", "arrow_data never computes len + offset with a raw addition; it goes through checked_len_plus_offset", floor=7)
     c = F.crate("arrow_data")
@@ -247,6 +265,7 @@ def run(ck, tier):
     run_recursion(ck, F)
     run_obligations(ck, F)
     run_stored(ck, F)
+    run_anchors(ck, F)
     run_overflow(ck, F)
     api.must_be_unsafe(ck, F, "C09.unchecked-api-is-unsafe", ["arrow_buffer", "arrow_data", "arrow_array", "arrow_schema", "arrow_row", "arrow_ipc", "arrow_select", "arrow_cast"],
                        UNSAFE_NAME, UNSAFE_EXEMPT, floor=60)
